@@ -238,6 +238,11 @@ OPS = {
     'neg': ('drop', lambda c, a, b, L: -a),
     'compare-eq': ('drop', lambda c, a, b, L: a == a),
     'compare-lt': ('drop', lambda c, a, b, L: a < 1),
+    'ufunc-add': ('drop-real', lambda c, a, b, L: c.np.add(a, 1)),
+    'ufunc-less': ('drop-real', lambda c, a, b, L: c.np.less(a, 1)),
+    'ndarray-left-add': ('drop-real', lambda c, a, b, L: c.nparray([1.0, 2.0, 3.0, 4.0], [2, 2], kind='f') + a),
+    'ndarray-left-lt': ('drop-real', lambda c, a, b, L: c.nparray([1.0, 2.0, 3.0, 4.0], [2, 2], kind='f') < a),
+    'values-plus-array': ('drop-real', lambda c, a, b, L: a.values + a),
     'stack': ('drop', lambda c, a, b, L: c.da.stack([a, a], axis='k')),
     'concatenate': ('drop', lambda c, a, b, L: c.da.concatenate([a, a], axis='y')),
     'stack-align': ('drop', lambda c, a, b, L: c.da.stack([a, b], axis='k', align=True)),
@@ -253,13 +258,20 @@ def propagation(ctx, op, odd=False):
     hist = [1, 2]
     attrs = {'units': u, 'hist': hist}
     if odd:
-        # metadata stored under names that are also keywords of the constructor must be carried like any other
-        attrs.update({'copy': 'yes', 'labels': 'lab', 'dims': 'dd'})
+        # metadata stored under names that are also keywords of the constructor, or that start with an underscore (written through
+        # the attrs dictionary), must be carried like any other
+        attrs.update({'copy': 'yes', 'labels': 'lab', 'dims': 'dd', '_FillValue': 'fv', '_indexing_note': 'n'})
     a = ctx.mk(['x', 'y'], [lx, ly], cells, lkinds=['i', 'f'], attrs=attrs)
     bx = [lx[0], ctx.int('bx1')]
     ctx.assume(bx[1] != bx[0])
     b = ctx.mk(['x', 'y'], [bx, ly], ctx.cells('f', 4, 'w'), lkinds=['i', 'f'], attrs={'other': 1})
     kind, f = OPS[op]
+    if kind == 'drop-real':
+        # arithmetic driven by NumPy (a ufunc call, or an ndarray as the left operand): decided by the real-stack replay only,
+        # the NumPy model does not reproduce the dispatch to __array_wrap__ / __array_priority__
+        if ctx.sym:
+            return ctx.done(True, None)
+        kind = 'drop'
     r = ctx.call(lambda: f(ctx, a, b, {'x': lx, 'y': ly}))
     if r[0] != 'ok':
         return ctx.done(False, r[1])
@@ -284,6 +296,12 @@ AXIS_OPS = {
     'reindex_axis-axis-arg': lambda c, a, L: a.reindex_axis(c.da.Axis([L['x'][1], L['x'][1] + 1], 'x', long_name='other axis')),
     'align': lambda c, a, L: c.da.align([c.mk(['x'], [[L['x'][1] + 1]], [0.0], register=False), a])[1],
     'list-index': lambda c, a, L: a[[L['x'][1], L['x'][0]]],
+    'empty-mask': lambda c, a, L: a[c.nparray([False, False], kind='b')],
+    'empty-mask-from-axis': lambda c, a, L: a[a.x > L['x'][1]],
+    'empty-slice-position': lambda c, a, L: a.ix[0:0],
+    'empty-list-position': lambda c, a, L: a.ix[[]],
+    'empty-slice-label': lambda c, a, L: a[L['x'][1] + 1:L['x'][1] + 2],
+    'empty-take_axis': lambda c, a, L: a.take_axis([], axis='x', indexing='position'),
     'take_axis': lambda c, a, L: a.take_axis([L['x'][1]], axis='x'),
     'transpose': lambda c, a, L: a.T,
     'reduce-other': lambda c, a, L: a.sum(axis='y'),
@@ -321,7 +339,7 @@ def templates():
     for op in OPS:
         add('propagate-%s' % op, 'propagation', cost=0.5, op=op)
     for op in OPS:
-        if op.startswith('index-') or op in ('sort_axis', 'take_axis', 'reindex_axis', 'reindex_like', 'interp_axis', 'compress_axis', 'dropna'):
+        if OPS[op][0] == 'keep':
             add('propagate-oddnames-%s' % op, 'propagation', cost=0.5, op=op, odd=True)
     for op in AXIS_OPS:
         add('axis-meta-%s' % op, 'axis_metadata', cost=0.5, op=op)
